@@ -75,3 +75,33 @@ Definition is_flood_type (ty : list Z) : bool := zlist_eqb ty c_ErrFloodWait || 
 Definition flood_timer (msg : list Z) : option Z :=
   let '(ty, arg) := parse msg in
   if is_flood_type ty then Some (wrap64 (wrap64 (second_ns * arg) + 1 * second_ns)) else None.
+
+(* ---------- FloodWait control flow ----------
+   FloodWait(ctx, err): if err is not a flood wait it returns (false, err) at once and arms
+   no timer. Otherwise it arms clock.Timer(d + 1s) and blocks in
+     select { case <-timer.C(): return true, err; case <-ctx.Done(): return false, ctx.Err() }.
+   The environment is a list of steps: the (fake) clock advances by dt nanoseconds, or the
+   context is cancelled. The timer fires as soon as the time elapsed since it was armed
+   reaches its duration (neo: a moment is due when it is not after now). The result is the
+   index of the step after which FloodWait returned (-1: before any step) and what it
+   returned; None = still blocked after all steps. *)
+Inductive fw_step : Type := FwAdvance (dt : Z) | FwCancel.
+Inductive fw_result : Type :=
+| FwRetry       (* (true, err): the caller retries *)
+| FwCtxErr      (* (false, ctx.Err()) *)
+| FwNotFlood.   (* (false, err), no timer *)
+
+Fixpoint fw_wait (d elapsed : Z) (steps : list fw_step) (i : Z) : option (Z * fw_result) :=
+  match steps with
+  | [] => None
+  | FwCancel :: _ => Some (i, FwCtxErr)
+  | FwAdvance dt :: t =>
+    let e := elapsed + dt in
+    if d <=? e then Some (i, FwRetry) else fw_wait d e t (i + 1)
+  end.
+
+Definition flood_wait_run (msg : list Z) (steps : list fw_step) : option Z * option (Z * fw_result) :=
+  match flood_timer msg with
+  | None => (None, Some (-1, FwNotFlood))
+  | Some d => (Some d, fw_wait d 0 steps 0)
+  end.
